@@ -12,9 +12,6 @@ import (
 )
 
 func init() {
-	register(&Rule{ID: "E-LITERAL-CASES", Props: []string{"C16", "C18", "C01", "C06"}, Floor: 8,
-		Doc: "the literal and context cases of the dispatcher return exactly the value the parser stored: Array/Bool/Number/Object/String return node.Value, Null returns nil, Current returns the current node, Root returns the root; no conversion, caching or alternative representation",
-		Run: ruleELiteralCases})
 	register(&Rule{ID: "E-FILTER-GUARDS-RHS", Props: []string{"C17", "C01"}, Floor: 1,
 		Doc: "in the fused filter projection the right-hand side is evaluated only for elements the predicate accepted: the evaluation of the projected node is dominated by the true edge of isTrue(predicate result), as in the unfused composition filter | projection",
 		Run: ruleEFilterGuardsRHS})
